@@ -59,7 +59,7 @@ type brokerGen struct {
 	pid    int
 	// known-finding classes confined to dedicated episodes (allowDollar: no finding any more since
 	// B4 was repaired; '$' levels and '$' topics stay in episodes of their own)
-	allowEmpty, allowDollar, allowOverlap, allowBadFilter bool
+	allowEmpty, allowDollar, allowBadFilter bool
 	thorough                                              bool
 	lastConnect                                           map[string]string
 	out2                                                  map[int][]int // subscriber conn -> QoS 2 ids the broker sent it (for PUBREC/PUBCOMP answers)
@@ -139,7 +139,9 @@ func (g *brokerGen) connect() {
 	g.next++
 	id := g.next
 	cid := fmt.Sprintf("c%d", 1+r.Intn(4))
-	if !g.allowOverlap {
+	// three CONNECTs in four look for an identifier no live connection uses; the fourth takes what
+	// it drew: if a live connection has it, the broker must disconnect that one (MQTT-3.1.4-2)
+	if r.Intn(4) != 0 {
 		for k := 0; k < 8; k++ {
 			clash := false
 			for _, c := range g.live {
@@ -177,6 +179,7 @@ func (g *brokerGen) connect() {
 		rest = prev
 	}
 	g.lastConnect[cid] = rest
+	g.takenOver(cid)
 	if r.Intn(12) == 0 {
 		// a packet pipelined behind the CONNECT, before the CONNACK has been read
 		switch r.Intn(3) {
@@ -248,6 +251,9 @@ func (g *brokerGen) badConnect() {
 	}
 	if pn == "MQIsdp" && ver == 3 {
 		// that is the valid 3.1 pair: accepted
+		if rsv == 0 && will == "~" && wq == 0 && wr == 0 && auth == 1 && cid != "" && len(cid) < 33 && !strings.ContainsAny(cid, "\x01\xc3\x7f\x1f") {
+			g.takenOver(cid)
+		}
 		g.live = append(g.live, &bConn{id: id, cid: cid})
 	}
 	g.emit("first %d connect %s %d %d %d %s %d %d %s ~ ~ 30 %d", id, hexStr(pn), ver, rsv, clean, will, wq, wr, hexStr(cid), auth)
@@ -257,6 +263,20 @@ func (g *brokerGen) badConnect() {
 			g.live = g.live[:n-1]
 		}
 	}
+}
+
+// takenOver: an accepted CONNECT under cid ends the live connections of that client
+func (g *brokerGen) takenOver(cid string) {
+	if cid == "" {
+		return
+	}
+	var live []*bConn
+	for _, c := range g.live {
+		if c.cid != cid {
+			live = append(live, c)
+		}
+	}
+	g.live = live
 }
 
 func (g *brokerGen) remove(c *bConn) {
@@ -495,7 +515,6 @@ func genBroker(p brokerProfile, seed int64, n int, tier string, w *bufio.Writer)
 		g.lastConnect = map[string]string{}
 		g.allowEmpty = r.Intn(8) == 0
 		g.allowDollar = r.Intn(10) == 0
-		g.allowOverlap = r.Intn(10) == 0
 		g.allowBadFilter = r.Intn(6) == 0
 		if r.Intn(2) == 0 {
 			g.names = []string{"a", "a/b", "a/c", "b"}
@@ -521,7 +540,7 @@ func genBroker(p brokerProfile, seed int64, n int, tier string, w *bufio.Writer)
 		done++
 		for i := 0; i < eplen && done < n; i++ {
 			done++
-			if hsRaceAt >= 0 && i >= hsRaceAt && len(g.live) <= 4 && !g.allowOverlap {
+			if hsRaceAt >= 0 && i >= hsRaceAt && len(g.live) <= 4 {
 				hsRaceAt = -1
 				done += g.hsRaceSeq() - 1
 				continue
